@@ -346,18 +346,30 @@ func (s *state) visitPrint(node *ast.PrintNode) {
 			}
 		}
 	}
+	// the implicit escaping is applied after the directives of the print command.
 	if escape != ast.AutoescapeOff {
-		directives = append([]*ast.PrintDirectiveNode{{0, "escapeHtml", nil}}, directives...)
+		directives = append(directives, &ast.PrintDirectiveNode{0, "escapeHtml", nil})
 	}
 
+	// Directives are applied in the order written: the first one is the
+	// innermost call.
 	s.indent()
 	s.js(s.bufferName, " += ")
-	for _, dir := range directives {
-		s.js(PrintDirectives[dir.Name].Name, "(")
-	}
-	s.walk(node.Arg)
 	for i := range directives {
 		var dir = directives[len(directives)-1-i]
+		s.js(PrintDirectives[dir.Name].Name, "(")
+		if escapesItsInput(dir.Name) {
+			s.js(PrintDirectives["escapeHtml"].Name, "(")
+		}
+	}
+	s.walk(node.Arg)
+	for _, dir := range directives {
+		if escapesItsInput(dir.Name) {
+			s.js(")")
+			if impt := s.options.Formatter.Directive(PrintDirectives["escapeHtml"]); impt != "" {
+				s.funcsCalled["escapeHtml"] = impt
+			}
+		}
 		for _, arg := range dir.Args {
 			s.js(",")
 			s.walk(arg)
@@ -370,6 +382,13 @@ func (s *state) visitPrint(node *ast.PrintNode) {
 		s.js(")")
 	}
 	s.js(";\n")
+}
+
+// escapesItsInput returns true for the directives that add markup to their
+// input and therefore (like their counterparts in soyhtml) escape it first;
+// the soyutils functions expect HTML.
+func escapesItsInput(directiveName string) bool {
+	return directiveName == "changeNewlineToBr" || directiveName == "insertWordBreaks"
 }
 
 func (s *state) visitFunction(node *ast.FunctionNode) {
